@@ -1,5 +1,5 @@
 """C13  Results do not depend on the number of OpenMP threads (analysed in the -fopenmp configuration)."""
-from tsg.facts import DB, strip, txt, callee, call_args, call_object, walk, short, callee_node
+from tsg.facts import DB, strip, txt, callee, call_args, call_object, walk, short, callee_node, substituting
 from tsg.flow import base_var, var_of, cond_edges_dominating
 from tsg.omp import Region, omp_nodes, PARALLEL, WORKSHARE, EXCLUSIVE
 from tsg.taint import carrier
@@ -77,6 +77,57 @@ def run(chk):
     chk.ob("C13-D0.control", "(library)", "critical-section appends recognised", counts["critical"] >= 10 and len(crit_appends) >= 6, "", str(counts))
     chk.ob("C13-D0.control", "(library)", "loop-variable subscripts recognised", counts["private-alias/by-loopvar"] >= 150, "", str(counts))
 
+    # ------------------------------------------------------------------ D7 order-independent combination under atomic/critical
+    chk.rule("C13-D7.commutative", "a shared scalar updated under atomic/critical is combined commutatively (+=, |=, ++, guarded max/min merge); a plain overwrite would make the result depend on which thread arrives last")
+    natom = 0
+    from tsg.facts import const_val
+    for fns in db.load_all().values():
+        for fn in fns:
+            if fn.file.startswith("@verif") or fn.file.startswith("Addons/test") or fn.d.get("islambda"):
+                continue
+            for p in omp_nodes(fn):
+                if p["omp"] == "atomic":
+                    natom += 1
+                    st = p["c"][0] if p.get("c") else None
+                    while st is not None and st.get("k") == "CompoundStmt" and len(st.get("c", [])) == 1:
+                        st = st["c"][0]
+                    s2 = strip(st) if st is not None else None
+                    ok = False
+                    why = "unrecognised atomic statement"
+                    if s2 is not None:
+                        if s2.get("k") == "CompoundAssignOperator" or (s2.get("k") == "UnaryOperator" and s2.get("op") in ("++", "--")):
+                            ok, why = True, "accumulation %s" % s2.get("op")
+                        elif s2.get("k") == "BinaryOperator" and s2.get("op") == "=":
+                            lhs = txt(strip(s2["c"][0]))
+                            rhs = s2["c"][1]
+                            if const_val(rhs) is not None:
+                                ok, why = True, "every thread stores the same constant"
+                            elif any(txt(x) == lhs for x in walk(rhs)):
+                                ok, why = True, "update expressed through the old value"
+                            else:
+                                why = "plain overwrite `%s`: the last thread to arrive decides the value" % txt(s2)[:50]
+                    chk.saw(fn)
+                    chk.ob("C13-D7.commutative", fn.key, "atomic @%s %s" % (fn.file.rsplit("/", 1)[-1], txt(s2)[:40] if s2 else "?"), ok, fn.loc(p), why)
+                if p["omp"] == "critical":
+                    for x in walk(p):
+                        if x.get("k") in ("BinaryOperator", "CXXOperatorCallExpr") and x.get("op") == "=":
+                            lhs = x["c"][0] if x.get("k") == "BinaryOperator" else x["c"][1]
+                            root = base_var(lhs)
+                            tops = [q for q in omp_nodes(fn) if q["omp"] in PARALLEL and any(y is p for y in walk(q))]
+                            if not tops or root is None:
+                                continue
+                            R = Region(fn, tops[0])
+                            if root in R.private:
+                                continue
+                            natom += 1
+                            guards = [a for a in fn.ancestors(x) if a.get("k") == "IfStmt" and any(y is a for y in walk(p))]
+                            lt = txt(strip(lhs)).split("[")[0].split(".")[0]
+                            ok = any(lt in txt(g.get("cond")) and any(op in txt(g.get("cond")) for op in (">", "<")) for g in guards)
+                            chk.saw(fn)
+                            chk.ob("C13-D7.commutative", fn.key, "critical merge %s" % txt(x)[:40], ok, fn.loc(x),
+                                   "guarded max/min merge" if ok else "shared value overwritten in arrival order")
+    chk.floor("C13-D7.commutative", natom, 8, "atomic / critical scalar updates")
+
     # ------------------------------------------------------------------ D2
     for fn, R, n, t in crit_appends:
         root = base_var(t)
@@ -143,18 +194,40 @@ def run(chk):
                 continue
 
             def sig_calls(f, rename):
+                import re
                 res = set()
+                # local pointer/reference aliases are rendered as what they point to (map vs p for pmap.getStrip(i));
+                # substitution is by declaration, not by name (names may be shadowed later in the function)
+                alias = {}
+                for d in f.locals().values():
+                    t = d.get("t", "")
+                    if d.get("c") and (t.endswith("*") or t.endswith("&")) and d.get("name") and "did" in d:
+                        alias[d["did"]] = txt(strip(d["c"][0]))
+                    if d.get("name") in rename and "did" in d:
+                        alias[d["did"]] = rename[d["name"]]
+
+                def norm(text):
+                    return text
                 for c in f.walk():
                     cal = callee(c)
                     if not cal or not cal.startswith("TasGrid::") or cal.startswith(("TasGrid::Data2D", "TasGrid::MultiIndexSet::getIndex", "TasGrid::Utils")) and not cal.endswith("appendStrip"):
                         continue
                     if cal.endswith(("::append", "::getNumIndexes", "::getNumDimensions", "::getStrip", "::getNumStrips")):
                         continue
-                    args = [txt(strip(a)) for a in call_args(c)]
-                    args = [rename.get(a, a) for a in args]
-                    obj = txt(strip(call_object(c))) if call_object(c) is not None else ""
-                    obj = rename.get(obj, obj)
-                    guards = tuple(sorted({(txt(strip(g)), tr) for g, tr in cond_edges_dominating(f, c) if "omp" not in txt(g)}))
+                    with substituting(alias):
+                        args = [txt(strip(a)) for a in call_args(c)]
+                        obj = txt(strip(call_object(c))) if call_object(c) is not None else ""
+                    # syntactic guards (enclosing if-conditions with branch), identical in both configurations;
+                    # the CFG of an OpenMP directive does not expose the loop structure
+                    gl = []
+                    prev = c
+                    for a in f.ancestors(c):
+                        if a.get("k") == "IfStmt":
+                            br = "then" if a.get("then") is not None and any(x is prev for x in walk(a["then"])) else "else"
+                            with substituting(alias):
+                                gl.append((txt(strip(a.get("cond"))), br))
+                        prev = a
+                    guards = tuple(sorted(set(gl)))
                     res.add((short(cal), obj, tuple(args), guards))
                 return res
             # thread-local containers of the OpenMP body stand for the shared destination of the serial body
